@@ -26,6 +26,8 @@ func init() {
 			{"C08.R4", "q", "shared: upper tree refreshed from READY buckets, reset on every refresh", c08r4},
 			{"C15.R9", "q", "path keys invert ParsePathUint64 for all 16 digits", c15r9},
 			{"C15.R10", "q", "tree parameters derived after the number of buckets is final", c15r10},
+			{"C15.R11", "q", "served-bucket vector = the route table entry of this server", c15r11},
+			{"C15.R12", "q", "bucket directory naming and opening", c15r12},
 		},
 	})
 }
